@@ -167,3 +167,23 @@ def check(cx):
     cx.include(c13, {"C13.1"}, "C18.6", "shared with C13.1: VACUUM, which forgets the aborted ids, removes a version only after asking "
                "for the fate of its stamps and persists the removal of a rolled-back deletion mark; otherwise a version decodes "
                "to nothing for every later snapshot although no committed transaction deleted it", floor=3)
+
+    # ---- C18.7 what goes into a new version is not decided by the numeric-promoting equality ------------------------------
+    r7 = cx.rule("C18.7", "WMC: while `DataType == DataType` compares integers through f64 (C19.2, known finding D20) it must not decide what a "
+                 "row version stores: nothing reachable from Tuple::add_version_with (the UPDATE path of the storage layer) calls "
+                 "the PartialEq impls of DataType/DataTypeRef", floor=1)
+    avw = "storage::tuple::Tuple::add_version_with"
+    fav = cx.guard(r7, "add_version_with", p.fn, avw)
+    if fav:
+        EQS = {"<types::DataType as std::cmp::PartialEq>::eq", "<types::DataTypeRef<'_> as std::cmp::PartialEq>::eq",
+               "<types::DataType as std::cmp::PartialEq>::ne", "<types::DataTypeRef<'_> as std::cmp::PartialEq>::ne"}
+        feq = p.fns.get("<types::DataType as std::cmp::PartialEq>::eq")
+        lossy = bool(feq) and any(c.callee.endswith("::to_f64") for c in feq.calls())
+        scope = {x for x in p.reach_forward([avw]) if x.startswith("storage::tuple") or x.startswith("<storage::tuple")}
+        users = sorted(g for g in scope if g in p.fns and any(c.callee in EQS for c in p.fns[g].calls()))
+        if not lossy:
+            cx.ok(r7, "no-lossy-equality-in-update", fav.where(), "DataType equality is exact: value comparisons in the update path are harmless")
+        else:
+            cx.verdict(not users, r7, "no-lossy-equality-in-update", fav.where(), "no value equality in the version-writing path (%d functions)" % len(scope),
+                       "%s compares values with `==` while building a new row version: distinct BIGINTs above 2^53 (or 0.0 / -0.0) compare equal, "
+                       "so the assignment is dropped and every later reader decodes the old value" % ", ".join(users))
